@@ -1,0 +1,8 @@
+//go:build !verif
+
+package peering
+
+// verifSched and verifSpawn are schedule points used by the verification
+// harness (build tag "verif"). Without the tag they are empty and inlined away.
+func verifSched(*peerHandler, string) {}
+func verifSpawn(*peerHandler, string) {}
